@@ -8,6 +8,7 @@ import (
 	"errors"
 	"fmt"
 	"math"
+	"math/rand"
 	"net"
 	"os"
 	"os/exec"
@@ -278,10 +279,11 @@ func rtRun(kind, class, cont string) (equal, consumed bool, written int, err err
 // ---------------------------------------------------------------- registered messages
 
 type fillCtx struct {
-	variant string // all-zero | all-one | all-extreme | single-extreme
-	field   int    // for single-extreme: which leaf (1-based) is extreme
-	n       int    // leaf counter
-	ints    int    // fields of Go type int met (they travel as int32)
+	variant string     // all-zero | all-one | all-extreme | single-extreme
+	field   int        // for single-extreme: which leaf (1-based) is extreme
+	n       int        // leaf counter
+	ints    int        // fields of Go type int met (they travel as int32)
+	rng     *rand.Rand // variant "mixed": the class of every leaf is drawn from it
 }
 
 func (f *fillCtx) classFor() string {
@@ -293,6 +295,8 @@ func (f *fillCtx) classFor() string {
 		return "one"
 	case "all-extreme":
 		return "extreme"
+	case "mixed":
+		return []string{"zero", "one", "extreme"}[f.rng.Intn(3)]
 	}
 	if f.n == f.field {
 		return "extreme"
@@ -369,7 +373,11 @@ func fill(v reflect.Value, f *fillCtx, depth int) error {
 		}
 		s := reflect.MakeSlice(v.Type(), n, n)
 		for i := 0; i < n; i++ {
-			if err := fill(s.Index(i), &fillCtx{variant: "all-one"}, depth+1); err != nil {
+			sub := &fillCtx{variant: "all-one"}
+			if f.variant == "mixed" {
+				sub = &fillCtx{variant: "mixed", rng: f.rng}
+			}
+			if err := fill(s.Index(i), sub, depth+1); err != nil {
 				return err
 			}
 		}
@@ -398,6 +406,9 @@ func fill(v reflect.Value, f *fillCtx, depth int) error {
 		v.Set(m)
 	case reflect.Pointer:
 		cls := f.classFor()
+		if cls == "zero" && f.variant == "mixed" {
+			cls = "one" // nil fields belong to the all-zero variant (an encoder may refuse them): mixed vectors keep every field set
+		}
 		if cls == "zero" {
 			return nil
 		}
@@ -417,6 +428,9 @@ func fill(v reflect.Value, f *fillCtx, depth int) error {
 		}
 	case reflect.Interface:
 		cls := f.classFor()
+		if cls == "zero" && f.variant == "mixed" {
+			cls = "one"
+		}
 		if cls == "zero" {
 			return nil
 		}
@@ -435,6 +449,9 @@ func fill(v reflect.Value, f *fillCtx, depth int) error {
 	}
 	return nil
 }
+
+// mixedSeed shifts the draws of the "mixed" variants (set from VERIF_SEED and, in the thorough tier, per repetition)
+var mixedSeed int64
 
 type msgCaseResult struct {
 	name            string
@@ -457,6 +474,13 @@ func msgRoundTripAfter(reg messages.VerifRegistered, variant string, field int, 
 	res := msgCaseResult{name: reg.Name}
 	p := reflect.New(reg.Type)
 	f := &fillCtx{variant: variant, field: field}
+	if variant == "mixed" {
+		h := int64(field) * 1000003
+		for _, ch := range reg.Name {
+			h = h*31 + int64(ch)
+		}
+		f.rng = rand.New(rand.NewSource(h + mixedSeed))
+	}
 	if reg.Name == "clusterSingletonForwardedMessage" {
 		// unexported fields: built through the guarded constructor
 		p = reflect.ValueOf(singletonForwardedFor(f))
@@ -536,7 +560,11 @@ func singletonForwardedFor(f *fillCtx) any {
 	case "extreme":
 		addr, path = "node-1.example.org:65535", "/a/"+strings.Repeat("ü", 100)
 	}
-	switch f.classFor() { // message
+	mcls := f.classFor()
+	if mcls == "zero" && f.variant == "mixed" {
+		mcls = "one"
+	}
+	switch mcls { // message
 	case "one":
 		msg = &vivid.OnKill{Reason: "x"}
 	case "extreme":
@@ -583,6 +611,19 @@ func checkC12(c *core.Ctx) {
 	for _, reg := range regs {
 		names = append(names, reg.Name)
 		for _, v := range wc.Variants {
+			if v.Name == "mixed" {
+				// each "mixed" variant stands for core.Pick repetitions with different draws
+				for rep := 0; rep < core.Pick(c, 1, 200); rep++ {
+					mixedSeed = c.Seed*7919 + int64(rep)*104729
+					res := msgRoundTrip(reg, v.Name, v.Field)
+					if res.skipped != "" || res.panicked {
+						continue
+					}
+					events = append(events, map[string]any{"e": "RT", "c": fmt.Sprintf("msg:%s/mixed/%d.%d", reg.Name, v.Field, rep), "v": b2i(res.equal), "n": b2i(res.consumed), "m": -1, "k": len(res.encoded)})
+					c.Add("evaluations", 1)
+				}
+				continue
+			}
 			res := msgRoundTrip(reg, v.Name, v.Field)
 			if res.panicked {
 				c.Add("encode_panics_left_to_C13", 1)
